@@ -349,9 +349,95 @@ P["C10"] = {
         K("c10.send_all.step", "net_mod.rs", NA + "c10_send_all_step", "SendAll::poll_inner step incl. flags and zero-copy mode on the continuation", ["net::SendAll::poll_inner"] + C10FN, bounded="buffer <= 16 bytes"),
         K("c10.send_all_vectored.step", "net_mod.rs", NA + "c10_send_all_vectored_step", "SendAllVectored::poll_inner step: Ok iff the unsent suffix is empty; flags and zero-copy mode kept", ["net::SendAllVectored::poll_inner"] + C10FN, bounded="2 buffers <= 16 bytes"),
         K("c10.recv_n.step", "net_mod.rs", NA + "c10_recv_n_step", "RecvN::poll step incl. flags on the continuation", ["net::RecvN::poll"] + C10FN, bounded="buffer <= 16 bytes"),
+        K("c10.read_n_vectored.step", "io_mod.rs", IOM + "c10_read_n_vectored_step", "ReadNVectored::poll step (2 buffers): eof / done iff last >= left / continue: bytes kept front to back, iovecs over remaining capacity, left - last, offset + last", ["io::ReadNVectored::poll"] + C10FN, bounded="2 buffers <= 16 bytes"),
+        K("c10.recv_n_vectored.step", "net_mod.rs", NA + "c10_recv_n_vectored_step", "RecvNVectored::poll step (2 buffers) incl. flags on the continuation", ["net::RecvNVectored::poll"] + C10FN, bounded="2 buffers <= 16 bytes"),
         K("op.poll.not_started", "op.rs", O + "poll_not_started", "the re-poll of a re-armed operation submits exactly its encoder's output", OPFN),
         K("c13.enc.write", "uio.rs", UIO + "c13_enc_write", "WRITE encoder (what the re-poll submits)", ["io_uring::io::WriteOp"]),
         K("op.fallback", "op.rs", O + "op_fallback_other", "op::fallback: errors other than EINVAL pass through unchanged", ["io_uring::op::fallback"]),
+    ],
+}
+
+CFG = "io_uring::config::verif_config::"
+P["C18"] = {
+    "level_text": "Proof on the real Config::build_sys, Shared::new and Completions::new: for every configuration (all booleans, all u32 sizes, optional fields) the parameter block passed to io_uring_setup carries exactly the configuration; and with setup succeeding and every later step free to fail independently - any feature mask, each of the three mmaps, each madvise, the direct-descriptor registration - the result is either queues built from exactly what the kernel granted (sizes, offsets, modes) with exactly three mappings live and the ring fd open, or an error with every mapping unmapped with the (address, length) it was mapped with and the ring fd closed exactly once.",
+    "level_note": "Kernel answers are modelled (sq_entries in {1,2,4}, cq_entries in {1,2,4,8}, offsets <= 64 so the regions fit the harness memory); mmap/munmap/madvise/close are ledger models; std's OwnedFd::drop is replaced by a recording stub (it calls std's private copy of libc close). `attach` (wq_fd of another ring) is not exercised.",
+    "functions": [
+        {"file": "src/io_uring/config.rs", "fn": r"pub\(crate\) fn build_sys\(self\)"},
+        {"file": "src/io_uring/mod.rs", "fn": r"pub\(crate\) fn new\(rfd: OwnedFd, parameters: &libc::io_uring_params\)"},
+        {"file": "src/io_uring/cq.rs", "fn": r"pub\(crate\) fn new\(rfd: RawFd, parameters: &libc::io_uring_params\)"},
+        {"file": "src/io_uring/mod.rs", "fn": r"^fn mmap\("},
+    ],
+    "trusted_base": [KERNEL, LEDGER, KANIBUG, "scan: kani::stub(std::os::fd::OwnedFd::drop -> ledger)"],
+    "assumptions": [],
+    "obligations": [
+        K("c18.params", "config.rs", CFG + "c18_params", "io_uring_params == configuration: flags == SUBMIT_ALL|NO_SQARRAY|(SQPOLL or COOP_TASKRUN)|one bit per option, sizes/cpu/idle in their fields, rest zero; entries argument == sq size; setup error returned, nothing acquired", ["io_uring::config::Config::build_sys"]),
+        K("c18.build.ok_or_unwound", "config.rs", CFG + "c18_build_features_ok", "setup ok, required features present; mmap x3 / madvise x3 / FILES2 registration each free to fail: Ok => 3 mappings (exact lengths, ring fd, ABI offsets), queues use the granted sizes/offsets/modes, sparse table of the requested size registered; Err => all mappings unmapped with their own (addr,len), ring fd closed exactly once", ["io_uring::config::Config::build_sys", "io_uring::Shared::new", "io_uring::cq::Completions::new", "io_uring::mmap", "io_uring::munmap"]),
+        K("c18.build.feature_missing", "config.rs", CFG + "c18_build_feature_missing", "any of NODROP / SUBMIT_STABLE / RW_CUR_POS / SQPOLL_NONFIXED missing: error, nothing mapped, ring fd closed exactly once", ["io_uring::config::Config::build_sys"]),
+        K("c12.shared.new_drop", "uring_mod.rs", U + "c12_shared_new_drop", "Shared::new then Drop (or failing second mapping/madvise): balanced ledger", ["io_uring::Shared::new", "io_uring::<impl Drop for Shared>::drop"]),
+        K("c12.completions.new_drop", "cq.rs", C + "c12_completions_new_drop", "Completions::new then Drop (or failing madvise): balanced ledger, never closes the ring fd", ["io_uring::cq::Completions::new", "io_uring::cq::<impl Drop for Completions>::drop"]),
+    ],
+}
+P["C12"] = {
+    "level_text": "Proof of per-object resource balance on the real code: Ring drop (Completions::drop) performs flush -> REGISTER_SYNC_CANCEL{ANY|ALL} -> fetch -> process in that order tolerating every error; Shared and Completions unmap exactly the regions they mapped (same address and length) and the ring fd is closed last, exactly once; ReadBufPool unregisters its group and frees both allocations with their creation layouts. Every handle's own drop path (AsyncFd drop, SubmissionQueue::wake, ReadBuf release, operation drop) is proved in harnesses in which no Completions object exists at all, i.e. they only touch memory kept alive by Arc<Shared> / the pool.",
+    "level_note": "Permutations of drop order reduce to these per-object contracts because ownership is Arc-shaped (type-level, not re-proved). That every abandoned operation's final completion is posted before the last drain is the kernel contract of REGISTER_SYNC_CANCEL (assumed). Known findings F9/F10 (results delivered to abandoned operations are not disposed of) also affect teardown.",
+    "functions": [
+        {"file": "src/io_uring/cq.rs", "fn": r"pub\(crate\) fn drop\(&mut self, shared: &Shared\)"},
+        {"file": "src/io_uring/mod.rs", "fn": r"^    fn drop\(&mut self\) \{\n        let ptr = self.submissions.cast\(\);"},
+    ],
+    "trusted_base": [KERNEL, LEDGER, KANIBUG, "scan: kani::stub(std::os::fd::OwnedFd::drop -> ledger)"],
+    "assumptions": ["Arc<Shared> keeps the submission mapping and ring fd alive for every handle (Rust ownership)"],
+    "obligations": [
+        K("c12.cq_drop", "cq.rs", C + "c12_cq_drop", "Completions::drop(shared): enter(flush: min_complete MAX, SQ_WAIT iff kernel thread, 1 s) -> register(SYNC_CANCEL, ANY|ALL, 1 s) -> enter(1, GETEVENTS, 0) -> poll processes what that produced; every step may fail (all errnos) without skipping the later ones", ["io_uring::cq::Completions::drop"]),
+        K("c12.shared.new_drop", "uring_mod.rs", U + "c12_shared_new_drop", "Shared: munmap(entries) then munmap(ring) with the mapped lengths, ring fd closed last and once", ["io_uring::<impl Drop for Shared>::drop"]),
+        K("c12.completions.new_drop", "cq.rs", C + "c12_completions_new_drop", "Completions: munmap(ring, ring_len) once; never closes the fd", ["io_uring::cq::<impl Drop for Completions>::drop"]),
+        K("c12.pool.new_drop", "uio.rs", UIO + "c08_pool_new_drop", "ReadBufPool: UNREGISTER_PBUF_RING then dealloc of both allocations with the creation layouts", ["io_uring::io::<impl Drop for ReadBufPool>::drop"], bounded="pool_size in {1,2}", tier="thorough"),
+        K("c12.after_ring.asyncfd_drop", "fd.rs", F + "c07_drop", "AsyncFd drop path needs only Arc<Shared> (no Completions exists in the harness)", ["io_uring::fd::<impl Drop for AsyncFd>::drop"]),
+        K("c12.after_ring.wake", "sq.rs", S + "c11_wake_not_polling", "SubmissionQueue::wake with no ring polling (e.g. dropped): flag only, no system call, no ring entry", ["io_uring::sq::Submissions::wake"]),
+        K("c12.after_ring.readbuf_release", "read_buf.rs", RB + "c08_readbuf_release_once", "ReadBuf release/drop touches only the pool's own memory", ["io::read_buf::ReadBuf::release"], bounded="pool 4 x 8 bytes"),
+        K("c12.after_ring.op_drop", "op.rs", O + "drop_running", "dropping a pending operation needs only Arc<Shared> and the operation's own box", ["io_uring::op::State::drop"]),
+    ],
+}
+
+FS = "io_uring::fs::verif_fs::"
+PR = "io_uring::process::verif_process::"
+P["C13"] = {
+    "level_text": "Proof (loop-free, full argument domain) that every request encoder produces exactly the submission entry the io_uring ABI defines for the corresponding system call - opcode, descriptor, offset/address/length/flag fields from the right arguments, every other byte zero, direct-descriptor slot allocation exactly when a direct descriptor is requested, O_CLOEXEC/SOCK_CLOEXEC for regular ones, IOSQE_FIXED_FILE exactly on direct descriptors - and that every pointer placed in an entry (buffers, iovec arrays, msghdr, address storage, length words, stat/siginfo/option out-buffers, path strings) points into the operation's boxed Resources (C01); decoders return the counts/addresses/option values/descriptors the kernel wrote; builder settings take effect exactly until the first poll.",
+    "level_note": "Equality with the kernel's behaviour for each opcode is the assumed io_uring ABI (written out in the harnesses, from io_uring_enter(2) and the kernel uapi header). Generic encoders are instantiated with an instrumented buffer with symbolic pointer/length, SocketAddrV4 / NoAddress addresses, 2 vectored buffers, KeepAlive as the representative socket option. Not under contract: StatOp (uses a `c\"\"` literal Kani 0.68 cannot compile), PollableOp (closure inside poll_next), recv_from single-buffer variant (same code as the vectored one), the synchronous fallbacks (pipe2, getsockname, getsockopt).",
+    "functions": [
+        {"file": "src/io_uring/io.rs", "fn": r"pub\(crate\) fn close_file_fd\("},
+        {"file": "src/io_uring/net.rs", "fn": r"^fn fill_recvmsg_submission<A: SocketAddress>\("},
+    ],
+    "trusted_base": [KANIBUG, "io_uring ABI table (expected entries written in the harnesses)"],
+    "assumptions": ["the kernel implements each opcode like the corresponding system call"],
+    "obligations": [
+        K("c13.enc.read", "uio.rs", UIO + "c13_enc_read", "READ == pread(fd, spare part of buffer, spare capacity, offset | current position); decode appends n", ["io_uring::io::ReadOp"]),
+        K("c13.enc.read_pool", "uio.rs", UIO + "c13_enc_read_pool", "pool read: BUFFER_SELECT + group id, no address; decode -> owned slot", ["io_uring::io::ReadOp"]),
+        K("c13.enc.write", "uio.rs", UIO + "c13_enc_write", "WRITE == pwrite(fd, buf, len, offset); extract returns the caller's buffer", ["io_uring::io::WriteOp"]),
+        K("c13.enc.vectored", "uio.rs", UIO + "c13_enc_vectored", "READV/WRITEV: iovec array inside Resources, count, offset; decode fills front to back", ["io_uring::io::ReadVectoredOp", "io_uring::io::WriteVectoredOp"]),
+        K("c13.enc.splice", "uio.rs", UIO + "c13_enc_splice", "SPLICE both directions", ["io_uring::io::SpliceOp"]),
+        K("c13.enc.multishot_read", "uio.rs", UIO + "c08_map_multishot_read", "READ_MULTISHOT with buffer selection", ["io_uring::io::MultishotReadOp"]),
+        K("c13.enc.close", "fd.rs", F + "c07_drop", "CLOSE: fd vs file_index = fd+1 (shared encoder close_file_fd)", ["io_uring::io::close_file_fd"]),
+        K("c13.enc.to_direct", "fd.rs", F + "c13_enc_to_direct", "FILES_UPDATE(ALLOC)", ["io_uring::fd::ToDirectOp"]),
+        K("c13.enc.to_fd", "fd.rs", F + "c07_wrap_to_fd", "FIXED_FD_INSTALL", ["io_uring::fd::ToFdOp"]),
+        K("c13.enc.open", "fs_uring.rs", FS + "c13_enc_open", "OPENAT == openat(AT_FDCWD, path, flags, mode)", ["io_uring::fs::OpenOp"]),
+        K("c13.enc.paths", "fs_uring.rs", FS + "c13_enc_paths", "MKDIRAT / RENAMEAT (old in addr, new in off) / UNLINKAT (AT_REMOVEDIR iff directory)", ["io_uring::fs::CreateDirOp", "io_uring::fs::RenameOp", "io_uring::fs::DeleteOp"]),
+        K("c13.enc.fd_ops", "fs_uring.rs", FS + "c13_enc_fd_ops", "FSYNC(DATASYNC) / FADVISE / FALLOCATE (len in addr, mode in len) / FTRUNCATE", ["io_uring::fs::SyncDataOp", "io_uring::fs::AdviseOp", "io_uring::fs::AllocateOp", "io_uring::fs::TruncateOp"]),
+        K("c13.enc.socket", "net_uring.rs", N + "c13_enc_socket", "SOCKET == socket(domain, type|CLOEXEC, protocol)", ["io_uring::net::SocketOp"]),
+        K("c13.enc.bind_connect_listen", "net_uring.rs", N + "c13_enc_bind_connect_listen", "BIND (len in addr2) / CONNECT (len in off) / LISTEN", ["io_uring::net::BindOp", "io_uring::net::ConnectOp", "io_uring::net::ListenOp"]),
+        K("c13.socket_name", "net_uring.rs", N + "c13_socket_name", "GETSOCKNAME cmd local/peer; decoded address == what the kernel wrote", ["io_uring::net::SocketNameOp"]),
+        K("c13.enc.send", "net_uring.rs", N + "c13_enc_send", "SEND / SEND_ZC / with destination address", ["io_uring::net::SendOp", "io_uring::net::SendToOp"]),
+        K("c13.enc.msg", "net_uring.rs", N + "c13_enc_msg", "SENDMSG[_ZC] / RECVMSG: msghdr, iovecs, address inside Resources", ["io_uring::net::SendMsgOp", "io_uring::net::RecvFromVectoredOp", "io_uring::net::fill_recvmsg_submission", "unix::MsgHeader::init_send", "unix::MsgHeader::init_recv"]),
+        K("c13.enc.recv", "net_uring.rs", N + "c13_enc_recv", "RECV into the spare part of the buffer; SHUTDOWN", ["io_uring::net::RecvOp", "io_uring::net::ShutdownOp"]),
+        K("c13.accept", "net_uring.rs", N + "c13_accept", "ACCEPT with address: out-parameters inside Resources; socket of the listener's kind + decoded peer address", ["io_uring::net::AcceptOp"]),
+        K("c13.enc.multishot_accept", "net_uring.rs", N + "c13_enc_multishot_accept", "ACCEPT multishot", ["io_uring::net::MultishotAcceptOp"]),
+        K("c13.sockopt", "net_uring.rs", N + "c13_sockopt", "GETSOCKOPT / SETSOCKOPT cmds: level, name, length, value pointer inside Resources; decoded value", ["io_uring::net::SocketOptionOp", "io_uring::net::SetSocketOptionOp"]),
+        K("c13.enc.pipe", "pipe_uring.rs", PI + "c13_enc_pipe", "PIPE: fd array inside Resources, flags|CLOEXEC", ["io_uring::pipe::PipeOp"]),
+        K("c13.enc.waitid", "process_uring.rs", PR + "c13_enc_waitid", "WAITID", ["io_uring::process::WaitIdOp"]),
+        K("c13.enc.receive_signal", "process_uring.rs", PR + "c13_enc_receive_signal", "signalfd READ", ["io_uring::process::ReceiveSignalOp"]),
+        K("c13.enc.madvise", "process_uring.rs", PR + "c13_enc_madvise", "MADVISE", ["io_uring::mem::AdviseOp"]),
+        K("c13.builder_gate", "op.rs", O + "c13_builder_gate", "args_mut/resources_mut are Some exactly while NotStarted", ["io_uring::op::State::args_mut", "io_uring::op::State::resources_mut"]),
+        K("c13.fd_target_flags", "op.rs", O + "c13_fd_target_flags", "a request on an AsyncFd carries IOSQE_FIXED_FILE exactly for direct descriptors, on top of the encoder's output and the user_data", ["io_uring::op::<impl OpTarget for AsyncFd>::set_flags", "io_uring::fd::Kind::use_flags"]),
+        K("op.poll.not_started", "op.rs", O + "poll_not_started", "the queued entry is exactly the encoder's output (no field lost or added)", OPFN),
     ],
 }
 
